@@ -97,6 +97,9 @@ func spell(p *prng.R, canon, kind string) (string, string) {
 	if i := strings.LastIndexByte(canon, '@'); i >= 0 {
 		local, domain = canon[:i], canon[i:]
 	}
+	if noCaseRound(canon) {
+		kind = downgradeCaseKind(kind) // letters without an upper/lower round trip: no case variants
+	}
 	out := local
 	switch kind {
 	case "upper":
@@ -117,8 +120,10 @@ func spell(p *prng.R, canon, kind string) (string, string) {
 		}
 	}
 	s := out + domain
-	if s == canon {
-		return s, "canon"
+	if s == canon || !spellingOK(s) {
+		// (the second condition never holds in groups A and B; third widening:
+		// x/text refuses some non-ASCII spellings of names with symbols)
+		return canon, "canon"
 	}
 	return s, kind
 }
@@ -159,20 +164,28 @@ func docNormalize(fn, s string) (string, bool) {
 			fn = "precis_casefold"
 		}
 	}
+	// RFC 8264 IdentifierClass: a space is no part of a user name, the PRECIS
+	// profiles refuse the string (third widening; no such name before)
 	switch fn {
 	case "precis_casefold_email":
-		if !email {
+		if !email || !precisOK(s[:i]) {
 			return "", false
 		}
-		return foldAll(s[:i]) + "@" + strings.ToLower(s[i+1:]), true // domains here are ASCII
+		return foldAll(s[:i]) + "@" + strings.ToLower(s[i+1:]), true // domains here are lower-case stable
 	case "precis_casefold":
+		if !precisOK(s) {
+			return "", false
+		}
 		return foldAll(s), true
 	case "precis_email":
-		if !email {
+		if !email || !precisOK(s[:i]) {
 			return "", false
 		}
 		return foldWidthNFC(s[:i]) + "@" + strings.ToLower(s[i+1:]), true
 	case "precis":
+		if !precisOK(s) {
+			return "", false
+		}
 		return foldWidthNFC(s), true
 	case "casefold":
 		return strings.ToLower(s), true
@@ -198,30 +211,30 @@ var passwordPool = []string{
 	"пароль-ü-密", "пароль-ü-密!", "pässwörd",
 	pw71, pw72, pw72b, pw73, pw200, pwL,
 	// non-ASCII at the 72 byte boundary: bytes and characters differ
-	strings.Repeat("é", 36),         // 72 bytes, 36 characters
-	strings.Repeat("密", 24),         // 72 bytes, 24 characters
-	strings.Repeat("😀", 18),         // 72 bytes, 18 characters
-	strings.Repeat("é", 35) + "a",   // 71 bytes
-	pw72[:71] + "é",                 // 73 bytes, a character straddles byte 72
-	pw72[:70] + "密",                 // 73 bytes, straddling
-	pw72[:69] + "😀",                 // 73 bytes, straddling
-	strings.Repeat("é", 72),         // 72 characters, 144 bytes
-	strings.Repeat("aé", 36) + "b",  // 109 bytes, 73 characters
+	strings.Repeat("é", 36),        // 72 bytes, 36 characters
+	strings.Repeat("密", 24),        // 72 bytes, 24 characters
+	strings.Repeat("😀", 18),        // 72 bytes, 18 characters
+	strings.Repeat("é", 35) + "a",  // 71 bytes
+	pw72[:71] + "é",                // 73 bytes, a character straddles byte 72
+	pw72[:70] + "密",                // 73 bytes, straddling
+	pw72[:69] + "😀",                // 73 bytes, straddling
+	strings.Repeat("é", 72),        // 72 characters, 144 bytes
+	strings.Repeat("aé", 36) + "b", // 109 bytes, 73 characters
 	// byte strings that change under NFC / NFKC / PRECIS OpaqueString /
 	// case folding. Only ONE member of each equivalence class is in the pool:
 	// supplying exactly these bytes must succeed; whether another
 	// normalisation form of the same text may also succeed is not judged.
-	"pa\u0301ss",                   // decomposed (NFD) a + combining acute
-	"q\u0323\u0307x",               // two combining marks
-	"d\u0307\u0323y",               // two combining marks in non-canonical order
-	"p\u00a0w",                     // NO-BREAK SPACE
-	"p\u2003w\u3000z",              // EM SPACE, IDEOGRAPHIC SPACE
-	"\ufb01n-\u212bng",             // ligature fi, ANGSTROM SIGN
-	"\u1112\u1161\u11ab-jamo",      // Hangul conjoining jamo (NFC composes them)
-	"\uff50\uff57-wide",            // fullwidth letters
-	"Stra\u00dfe-\u0130-\u017f",     // sharp s, dotted capital I, long s
-	"\u2126hm \u00b5m",             // OHM SIGN, MICRO SIGN (compatibility / singleton mappings)
-	"tab\there",                    // control character
+	"pa\u0301ss",                // decomposed (NFD) a + combining acute
+	"q\u0323\u0307x",            // two combining marks
+	"d\u0307\u0323y",            // two combining marks in non-canonical order
+	"p\u00a0w",                  // NO-BREAK SPACE
+	"p\u2003w\u3000z",           // EM SPACE, IDEOGRAPHIC SPACE
+	"\ufb01n-\u212bng",          // ligature fi, ANGSTROM SIGN
+	"\u1112\u1161\u11ab-jamo",   // Hangul conjoining jamo (NFC composes them)
+	"\uff50\uff57-wide",         // fullwidth letters
+	"Stra\u00dfe-\u0130-\u017f", // sharp s, dotted capital I, long s
+	"\u2126hm \u00b5m",          // OHM SIGN, MICRO SIGN (compatibility / singleton mappings)
+	"tab\there",                 // control character
 }
 
 // Boundary family: passwords whose BYTE length is 70..74 or 140..146, built
